@@ -309,6 +309,28 @@ Proof.
   split; [exact Hl2|]. split; [exact Hs2|]. split; [reflexivity|]. split; assumption.
 Qed.
 
+(* Return from a frame pushed by CallFunction at ip0 (vm_call_function): execution continues at ip0 + 1, the
+   instruction after the call, in the caller's frame (same offset and closure as before the call); the callee's
+   part of the stack - everything from  n - ar  upwards, arguments included - is replaced by the returned value. *)
+Corollary vm_return_to_caller : forall ip0 ipr x n ar clo top rest l,
+  opcode_at ipr = 22%N ->
+  st_calls x = callee_frame ip0 n ar clo :: caller_frame ip0 top :: rest ->
+  vm_ok x -> open_list x l ->
+  let off := n - N.to_nat ar in
+  off < length (stack_of x) ->
+  exists x',
+    STEP ipr x = SNext (ip0 + 1) x' /\
+    stack_ok x' /\ stack_of x' = firstn off (stack_of x) ++ [last (stack_of x) VNil] /\
+    st_calls x' = caller_frame ip0 top :: rest /\ st_globals x' = st_globals x /\
+    vm_ok x' /\ open_list x' (kept_by off l).
+Proof.
+  intros ip0 ipr x n ar clo top rest l Hop Hc Hvm Hl off Hoff.
+  assert (Eoff : N.to_nat (fr_off (callee_frame ip0 n ar clo)) = off) by (unfold callee_frame, off; cbn [fr_off]; lia).
+  destruct (vm_return ipr x _ _ rest l Hop Hc Hvm Hl) as (x2 & _ & E & A1 & A2 & A3 & A4 & A5 & A6 & _);
+    [rewrite Eoff; exact Hoff|].
+  rewrite Eoff in *. eexists. split; [exact E|]. auto 10.
+Qed.
+
 (* ------------------------------------------------------------------ *)
 (* 3. The callee's view of the arguments                               *)
 (* ------------------------------------------------------------------ *)
@@ -355,7 +377,7 @@ Proof. intros H. unfold callee_frame. cbn [fr_off]. rewrite app_length. lia. Qed
    them: the callee's frame starts  length args - ar  values into [args]; while the callee's frame is the top frame and
    the stack still begins with low ++ args, local j (j < ar) IS  args[length args - ar + j]:
    ReadLocalVar j pushes a copy of it, SetLocalVar j overwrites it.
-   In declaration order (the compiler makes declared parameter m local ar - 1 - m, see params_are_locals_compiler):
+   In declaration order (the compiler makes declared parameter m local ar - 1 - m, see VmCallLink.param_binding):
    declared parameter m is args[length args - 1 - m] - the LAST argument is the first parameter. *)
 Theorem vm_params_are_locals : forall ip0 s low args a (is_clo : bool) h ar ups top rest pos,
   opcode_at ip0 = 11%N -> stack_ok s -> stack_of s = (low ++ args) ++ [VObj a] ->
